@@ -39,7 +39,7 @@ SYSTEM_METHOD = {'triclinic': 'triclinic', 'monoclinic': 'monoclinic', 'orthorho
                  'rhombohedral': 'rhombohedral', 'hexagonal': 'hexagonal', 'cubic': 'cubic'}
 
 SOURCES = tuple(['spd:' + r for r in REPRS] + list(SYSTEMS) + ['isotropic', 'tiny-entry'])
-ROTATIONS = ('haar', 'product', 'cubic-group', 'small-angle', 'about-axis', 'scaled-rows')
+ROTATIONS = ('haar', 'product', 'cubic-group', 'small-angle', 'about-axis', 'scaled-rows', 'tiny-angle')
 STRAINS = ('random', 'hydrostatic', 'uniaxial', 'pure-shear', 'large')
 
 _finite_group = {}
@@ -98,14 +98,13 @@ def named_constants(c6, names, group):
     return kw, rebuilt
 
 
-def tiny_entry(rng):
+def tiny_entry(rng, cls):
     """Orthorhombic-looking SPD matrix with one off-diagonal entry of relative
     size 1e-13..1e-7 (straddles the documented 1e-9 zeroing threshold)."""
     c6, _ = system_tensor(rng, 'orthorhombic', cond=1e3)
     pairs = [(0, 3), (0, 4), (0, 5), (1, 3), (2, 5), (3, 4), (3, 5), (4, 5)]
     i, j = pairs[int(rng.integers(0, len(pairs)))]
-    cls = int(rng.integers(0, 3))
-    expo = (rng.uniform(-13, -9.3), rng.uniform(-8.7, -7), rng.uniform(-9.3, -8.7))[cls]
+    expo = (rng.uniform(-13, -9.3), rng.uniform(-8.7, -7), rng.uniform(-9.3, -8.7))[cls]      # below / above / at the threshold
     t = float(rng.choice([-1.0, 1.0]) * 10 ** expo)
     c6 = c6.copy()
     c6[i, j] = c6[j, i] = t * np.abs(c6).max()
@@ -147,8 +146,10 @@ def rotation(rng, cls):
         return r
     if cls == 'cubic-group':
         return cubic_group()[int(rng.integers(0, 23))].copy()
-    if cls == 'small-angle':
-        return O.rot_axis(rng.normal(size=3), float(rng.choice([-1, 1]) * 10 ** rng.uniform(-10, -4)))
+    if cls == 'small-angle':        # off-diagonal terms of relative size 1e-8..1e-4: at and above transform's zeroing threshold
+        return O.rot_axis(rng.normal(size=3), float(rng.choice([-1, 1]) * 10 ** rng.uniform(-8.3, -4)))
+    if cls == 'tiny-angle':         # terms of relative size 1e-10..5e-9: below the threshold, transform zeroes them
+        return O.rot_axis(rng.normal(size=3), float(rng.choice([-1, 1]) * 10 ** rng.uniform(-10, -8.3)))
     if cls == 'about-axis':
         ax = np.eye(3)[int(rng.integers(0, 3))]
         ang = (rng.uniform(-np.pi, np.pi), np.pi - 10 ** rng.uniform(-7, -2), np.pi / 2, np.pi)[int(rng.integers(0, 4))]
